@@ -242,6 +242,10 @@ func c10Step(el *[c10E]*secp256k1.Element, sc *[c10S]*secp256k1.Scalar, m c10Mod
 		case "MinusOne":
 			r.MinusOne()
 			nm.s[o.i] = new(big.Int).Sub(ref.N, big.NewInt(1))
+		case "Random":
+			// crypto/rand.Reader is a constant stream in the harness processes (package conc), so the result is known
+			r.Random()
+			nm.s[o.i] = c10RandomValue
 		case "SetUInt64(3)":
 			r.SetUInt64(3)
 			nm.s[o.i] = big.NewInt(3)
